@@ -163,10 +163,26 @@ Definition clone_field_ok (c : clone_field) : bool :=
 Definition closure_ok (c : native_closure) : bool :=
   allowed ("closure " ++ nc_type c ++ " " ++ nc_usage c) (nc_func c).
 
+(* Singletons.  A frozen type of which a package-level INSTANCE is handed out (trueLiteral,
+   falseLiteral, nullLiteral, emptyStatement: one node shared by every compiled program of the process;
+   classObject ...: one table shared by every object) gets no constructor scope at all: the compiler
+   "building a new tree" may be holding the shared instance, so ANY store to a field of such a type
+   outside package initialisation is a store to structure every Script and every runtime shares. *)
+Definition hands_out (v : var_entry) : bool :=
+  existsb (fun s => match s_kind s with KEscape | KAddr | KMethodPtr => true | _ => false end) (v_sites v).
+Definition singleton_types (vars : list var_entry) : list string :=
+  map (fun v => strip_star (v_type v)) (filter hands_out vars).
+Definition singleton_site_ok (f : field_entry) (s : site) : bool :=
+  s_init s || allowed (f_type f ++ "." ++ f_name f) (s_func s).
+Definition singleton_field_ok (vars : list var_entry) (f : field_entry) : bool :=
+  negb (frozen_class (f_type f) && str_in (f_type f) (singleton_types vars)) ||
+  forallb (singleton_site_ok f) (f_sites f).
+
 Definition audit (vars : list var_entry) (fields : list field_entry) (calls : list call_edge)
            (copies : list copy_site) (cfields : list clone_field) (closures : list native_closure) : bool :=
   forallb var_ok vars && forallb field_ok fields && forallb (callers_bounded calls) allow_list &&
-  forallb copy_ok copies && forallb clone_field_ok cfields && forallb closure_ok closures.
+  forallb copy_ok copies && forallb clone_field_ok cfields && forallb closure_ok closures &&
+  forallb (singleton_field_ok vars) fields.
 
 (* ---- the translator must have seen what is known to be there (non-vacuity of the table) ---- *)
 
@@ -184,6 +200,9 @@ Definition table_sane (vars : list var_entry) (fields : list field_entry) (calls
            (copies : list copy_site) (cfields : list clone_field) (closures : list native_closure)
            (type_errors : Z) : bool :=
   (type_errors =? 0)%Z &&
+  (* the singleton nodes and tables are recognised as such *)
+  str_in "otto.nodeLiteral" (singleton_types vars) && str_in "otto.nodeEmptyStatement" (singleton_types vars) &&
+  str_in "otto.objectClass" (singleton_types vars) &&
   (* closure detection works: the Error.stack getter's capture is reported *)
   existsb (fun c => seqb (nc_func c) "otto.(*runtime).newErrorObject" && seqb (nc_var c) "obj" && seqb (nc_usage c) "read") closures &&
   (* the copying functions are found and read: known treatments are reported *)
@@ -231,6 +250,8 @@ Definition site_line (subject : string) (s : site) : string :=
 
 Definition failing_report (vars : list var_entry) (fields : list field_entry) (calls : list call_edge)
            (copies : list copy_site) (cfields : list clone_field) (closures : list native_closure) : list string :=
+  flat_map (fun f => map (fun s => site_line (f_type f ++ "." ++ f_name f ++ " [a package-level singleton of this type is shared by every program]") s)
+                         (filter (fun s => negb (singleton_field_ok vars f) && negb (singleton_site_ok f s)) (f_sites f))) fields ++
   map (fun c => nc_file c ++ ":" ++ zstr (nc_line c) ++ " native closure over " ++ nc_var c ++ " (" ++ nc_type c ++ ", " ++ nc_usage c ++
                 ") created in " ++ nc_func c ++ ": shared with copies by clone")
       (filter (fun c => negb (closure_ok c)) closures) ++
